@@ -541,3 +541,60 @@ def a_poly_curve(cx, rule, crate, floor):
         cx.add(rule, inst, bad is None and generic > 0,
                '%s: %d generic return path(s) equal the %s as rational functions of the operand coordinates%s' % (inst, generic, {'dbl': 'tangent law (a = %d)' % a_coef, 'add': 'chord law', 'neg': 'negation', 'affine': 'affine map'}[kind], '' if bad is None else ': ' + bad), fn.loc())
     cx.floor(rule, 'curve-functions/' + crate, n, floor, 'Jacobian formula functions compared with the group law')
+
+
+# ---- path summaries of loop-free functions --------------------------------------------------------------------------------
+def path_summary(F, fn):
+    """{(branch decisions on the path) => returned expression} of a loop-free function, from the field-sensitive dataflow:
+    insensitive to temporaries, to the order of independent statements, to `let mut r; r = x; r` versus `x`, and to early
+    returns versus if/else.  None for functions with loops or values the dataflow does not compose."""
+    from .rules_a import ExprFlow
+
+    class PathFlow(ExprFlow):
+        fold_consts = True
+
+        def refine_edge(self, b, s2, st):
+            t = self.fn.blocks[b]['term']
+            if t['k'] != 'switch' or t['op']['k'] not in ('copy', 'move'):
+                return st
+            v = self.show(self.read(st, t['op']['pl']))
+            vals = [str(x) for x, tb in t['targets'] if tb == s2]
+            if v.isdigit():
+                # a decision on a constant (the counter of a constant-trip loop): only the matching edge is taken, and the
+                # decision is not part of the summary
+                hit = [tb for x, tb in t['targets'] if str(x) == v]
+                taken = hit[0] if hit else t['otherwise']
+                return st if s2 == taken else None
+            if s2 == t['otherwise'] and not vals:
+                lab = 'else(%s)' % ','.join(sorted(str(x) for x, _ in t['targets']))
+            else:
+                lab = ','.join(sorted(vals))
+            if t['ty'] == 'bool':
+                lab = {'0': 'false', '1': 'true', 'else(0)': 'true', 'else(1)': 'false'}.get(lab, lab)
+            st = dict(st)
+            st['#path'] = tuple(st.get('#path', ())) + ((v, lab),)
+            return st
+    import time as _time
+    if fn.natural_loops():
+        # only counted while-loops are unrolled by constant propagation; iterator protocols are not modelled
+        if any(t['fn'].get('k') == 'def' and last(t['fn']['name']) in ('next', 'into_iter', 'iter', 'iter_mut') for _, t in fn.calls()):
+            return None
+    ef = PathFlow(F, fn)
+    ef.joined = False
+    ef.deadline = _time.time() + 1.0
+    ef.abort_on_join = True
+    ef.max_len = 0
+    try:
+        ef.result()
+    except (TimeoutError, RecursionError, MemoryError):
+        return None
+    if ef.joined or not ef.ret_vals:
+        return None           # a loop whose trip count is not a constant, or too many paths
+    out = set()
+    for rv, st in zip(ef.ret_vals, ef.final_states):
+        conds = tuple(sorted(set(st.get('#path', ()))))
+        s = ef.show(rv)
+        if '?' in s:
+            return None
+        out.add('%s => %s' % (' & '.join('%s=%s' % c for c in conds) or 'always', s))
+    return sorted(out)
